@@ -197,6 +197,16 @@ class Transport(Suite):
                 out.append({"segments": [{"set": v1, "items": mixed, "cuts": []}],
                             "then": [[{"items": [b, line(VALID[2])], "cuts": []}, {"set": v2, "items": [b, b], "cuts": [7]}],
                                      [{"items": mixed, "cuts": []}]], "opts": {"api": api}})
+        # ... the first connection ending in every way: the host leaves normally, the child has already exited by itself when
+        # the host leaves, the body raises - crossed with what the first connection negotiated (by
+        # set_protocol_version or by a real handshake is the same call)
+        for api in ("client", "transport"):
+            for v1 in ("2025-06-18", "2025-03-26", "2026-01-01"):
+                for end in (None, "child-exited", "exception"):
+                    out.append({"segments": [{"set": v1, "items": [b, line(VALID[2])], "cuts": []}],
+                                "then": [[{"items": [b, line(VALID[3])], "cuts": []}, {"set": "2025-06-18", "items": [b], "cuts": []}],
+                                         [{"items": [line(VALID[0]), b], "cuts": [5]}]],
+                                "ends": [end, rng.choice([None, "child-exited", "exception"]), None], "opts": {"api": api}})
         # non-default connection options crossed with rejection / acceptance
         for server in ({"env": {"LOG_LEVEL": "ERROR"}}, {"env": {"LOGGING_LEVEL": "CRITICAL"}, "args": ["--quiet"]}):
             for v in ("2025-06-18", "2025-03-26"):
@@ -207,6 +217,8 @@ class Transport(Suite):
             grp = [{"segments": [{"set": v, "items": mixed, "cuts": []}, {"items": [b, b], "cuts": []}]} for v in vs3]
             for c in grp:
                 out.append(dict(c, **{"with": [o for o in grp if o is not c]}))
+        from .. import stdio_h
+        stdio_h.prejudge([t for c in out for t in all_texts(c)])  # well-formedness judged in a process that has parsed nothing else
         # a host with DEBUG logging configured
         for i, c in enumerate(out):
             if i % 4 == 1:
@@ -221,6 +233,8 @@ class Transport(Suite):
             h = dict({"events": events_of(c), "opts": c.get("opts", {})}, **{k: c[k] for k in ("debug", "server") if k in c})
             if c.get("then"):
                 h["session_events"] = [events_of(c, segs) for segs in histories(c)]
+                if c.get("ends"):  # how each connection ends
+                    h["session_opts"] = [({"end": e} if e else {}) for e in c["ends"]]
             if c.get("with"):
                 h["with"] = [harness_case(w) for w in c["with"]]
             return h
@@ -403,11 +417,12 @@ class Transport(Suite):
                 yield {"segments": segs}
             return
         # consecutive connections on one object: fewer connections, then less inside each (the entry point is kept)
-        keep = {k: v for k, v in case.items() if k in ("opts",)}
+        keep = {k: v for k, v in case.items() if k in ("opts", "ends")}
         then = case["then"]
         for i in range(len(then)):
             rest = then[:i] + then[i + 1:]
-            yield dict(keep, segments=case["segments"], **({"then": rest} if rest else {}))
+            k2 = dict(keep, ends=case["ends"][:i + 1] + case["ends"][i + 2:]) if case.get("ends") else keep
+            yield dict(k2, segments=case["segments"], **({"then": rest} if rest else {}))
         for segs in self._shrink_segs(case["segments"]):
             yield dict(keep, segments=segs, then=then)
         for i, h in enumerate(then):
